@@ -24,16 +24,17 @@ const (
 
 // Config holds the bounds of one harness run (all reported in the evidence).
 type Config struct {
-	MaxSteps    int  // SSA instructions per path
-	MaxDepth    int  // symbolic decisions per path
-	MaxFrames   int  // call depth (recursion bound)
-	ConcLimit   int  // max cases when a symbolic value must be concretised
-	MapOrders   bool // explore map iteration orders
-	Interleave  bool // explore thread interleavings at visible operations
-	MaxSwitches int  // context-switch bound in interleaving mode
-	Trace       bool
-	KnownOpen   map[string]bool // open known-finding ids
-	Tier        int             // 0 quick, 1 thorough
+	MaxSteps      int  // SSA instructions per path
+	MaxDepth      int  // symbolic decisions per path
+	MaxFrames     int  // call depth (recursion bound)
+	ConcLimit     int  // max cases when a symbolic value must be concretised
+	MapOrders     bool // explore map iteration orders
+	Interleave    bool // explore thread interleavings at visible operations
+	SpawnDeferred bool // spawned goroutines run only when the harness says so
+	MaxSwitches   int  // context-switch bound in interleaving mode
+	Trace         bool
+	KnownOpen     map[string]bool // open known-finding ids
+	Tier          int             // 0 quick, 1 thorough
 }
 
 // interpreter: state of one worker; reset per path.
